@@ -28,7 +28,11 @@ func dirtyScript(rng *Rng, id string, withNext, canPanic bool) []Action {
 		if i == n {
 			break
 		}
-		switch rng.Intn(12) {
+		switch rng.Intn(14) {
+		case 12:
+			s = append(s, Action{Op: "copy"})
+		case 13:
+			s = append(s, Action{Op: "usecopy", S: "bgkey", V: id})
 		case 0, 1:
 			s = append(s, Action{Op: "set", S: "k" + fmt.Sprint(rng.Intn(3)), V: "dirty-" + id})
 		case 2:
@@ -224,8 +228,8 @@ func checkC10(sc *Scenario) *CheckOut {
 			out.Faults["abort"]++
 		}
 	}
-	if res.DoublePut > 0 {
-		out.Viol = append(out.Viol, Violation{"C10", "pool", fmt.Sprintf("a context was released to the pool %d time(s) while it was already in the pool's free list: two later requests can receive the same context", res.DoublePut), ""})
+	if v := poolViolation("C10", res); v != nil {
+		out.Viol = append(out.Viol, *v)
 		return out
 	}
 	tw := newTwinCache(sc, BuildOpt{})
